@@ -161,6 +161,7 @@ func vEqBytes(a, b []byte) bool   { return string(a) == string(b) }
 func vEqString(a, b string) bool  { return a == b }
 func vProvable(c bool) bool       { return c }
 func vRetype(v, proto any) any    { return nil }
+func vWatchAll(p any, prefix string) {}
 func vFact(key string, v any)     {}
 func vMapOrderAll()               {}
 func vAllocWatch()                {}
